@@ -106,6 +106,20 @@ func genTqCase(r *Rng, c *Ctx, prop string) tqCase {
 		d.Calls[d.MaxRetries] = Pick(r, []string{"429", "500", "429"})
 		return d
 	}
+	if prop == "C15" && r.Chance(12) {
+		// directed: several objects waiting at once with DIFFERENT ready times and nothing else ready
+		d := tqCase{N: 2 + r.Intn(2), BatchSize: Pick(r, []int{2, 3, 100}), MaxRetries: 3, MaxDelay: Pick(r, []int{0, 1}), Workers: 2}
+		waits := []string{"action:later2", "action:later1", "action:retriable", "action:later3"}
+		for i := 0; i < d.N; i++ {
+			d.Adds = append(d.Adds, i)
+			d.Obj = append(d.Obj, []string{waits[(i+int(r.U64()%4))%4], "action:ok"})
+		}
+		for k := 0; k < 8; k++ {
+			d.Calls = append(d.Calls, "200")
+			d.Unknown = append(d.Unknown, false)
+		}
+		return d
+	}
 	nreq := 2 + r.Intn(6)
 	for k := 0; k < nreq; k++ {
 		call := "200"
@@ -217,6 +231,25 @@ func tqOracle(tc tqCase, o *tqObs) (c06, c15 []string) {
 			if _, ok := terminalAt[cl.Oid]; !ok {
 				terminalAt[cl.Oid] = cl.End + 1
 			}
+		}
+	}
+	// adapter-level deferrals (Retry-After on the transfer itself): the object must not appear in a
+	// batch request that starts before the indicated time
+	for _, cl := range o.Calls {
+		nb, ok := o.NotBefore[cl.Oid]
+		if !ok || !strings.HasPrefix(cl.Outcome, "later") {
+			continue
+		}
+		for _, b := range o.Batches {
+			if b.At <= cl.End {
+				continue
+			}
+			for _, oid := range b.Oids {
+				if oid == cl.Oid && b.At < nb {
+					c15 = append(c15, fmt.Sprintf("an object whose transfer was deferred with Retry-After was requested again %d ms early", nb-b.At))
+				}
+			}
+			break // only the first request after the deferral is bound by it
 		}
 	}
 	// re-check the "requested again" rule now that adapter outcomes are known
